@@ -225,8 +225,14 @@ func c13Check(env *core.Env, cc core.Case) core.Verdict {
 		tree[filepath.Join(filepath.Dir(rel), n)] = "  - test_id: 9\n    test_title: x\n\n\n"
 	}
 	otherRel := map[string]c13Other{}
-	for _, o := range c.Others {
+	for i, o := range c.Others {
 		p := filepath.Join("tests", "regression", "tests", "REQUEST-"+o.Rule[:3]+"-TESTS", o.Rule+o.Ext)
+		if c.All && i == 1 {
+			// --all walks the whole directory: a test file two levels down, and one directly in the tests directory
+			p = filepath.Join("tests", "regression", "tests", "REQUEST-"+o.Rule[:3]+"-TESTS", "more", "deeper", o.Rule+o.Ext)
+		} else if c.All && i == 2 {
+			p = filepath.Join("tests", "regression", "tests", o.Rule+o.Ext)
+		}
 		if p == rel {
 			continue
 		}
